@@ -34,6 +34,11 @@ def configure():
     # (v) builtin repr(): CrossHair's model renders a 1-tuple as "('x')" (no trailing comma) - found by
     # the fidelity self-check of C15. CPython's repr runs; symbolic objects still provide __repr__.
     cc._PATCH_REGISTRATIONS.pop(repr, None)
+    # (vi) "fmt" % args: CrossHair's patch deep-COPIES and deep-realises the right operand (copyext REALIZE mode), i.e. it
+    # enumerates every symbolic int reachable from any object that is merely interpolated (found with seed C20-m5, where
+    # '"... %r" % failure' made the path tree infinite) and hands copies, not the objects, to __repr__/__str__.
+    # CPython's str.__mod__ runs instead; symbolic operands still realise themselves through __repr__/__str__/__index__.
+    cc._PATCH_REGISTRATIONS.pop(str.__mod__, None)
     # (iii) no symbolic clock
     for f in (_t.time, _t.time_ns, _t.monotonic, _t.monotonic_ns, _t.process_time,
               _t.process_time_ns):
